@@ -1,4 +1,4 @@
-import BppProofs.Lemmas.Lap
+import BppProofs.Lemmas.LapEasy
 /-!
 # C04 — the linear-assignment solver (`MatrixTools::lap`, `MatrixTools.h:1263-1541`)
 
@@ -88,6 +88,42 @@ theorem lap_certified_cost_unique (n : Nat) (c : Nat → Nat → ℝ) (σ ρ σ'
   apply le_antisymm
   · rw [e σ' π' hπ']; exact lap_certificate n c σ ρ u v hp hc π'
   · rw [e σ π hπ]; exact lap_certificate n c σ' ρ' u' v' hp' hc' π
+
+/-! ## the routine itself
+
+Full statement (`lap_total`, **not proved**): for every `n` and every real `n × n` cost matrix the
+Jonker–Volgenant routine terminates and its answer `(rowSol, colSol, u, v, cost)` satisfies
+`permB n rowSol colSol ∧ certB n c rowSol u v ∧ cost = Σ c i (rowSol i)`.
+
+Proved (`lap_partial`): the statement for the part of the routine that is transcribed
+(`Lap.lapEasy`: column reduction, reduction transfer, final loop), i.e. for every cost matrix whose
+column minima lie in pairwise different rows, so that the augmenting row reduction and the
+augmentation find no free row and do nothing.  On the remaining inputs the clause is checked on the
+implementation's answers (certificate evaluated in `Rat`, brute force over all permutations), not
+proved: the loop invariants of the shortest-augmenting-path phases are missing. -/
+
+/-- on inputs without free rows after the column reduction the routine returns a permutation with
+its inverse, dual variables certifying it, and the cost of that assignment -/
+theorem lap_partial (n : Nat) (c : Nat → Nat → ℝ) (a : Easy ℝ) (h : lapEasy n c = some a) :
+    permB n a.rowSol a.colSol = true ∧ certB n c a.rowSol a.u a.v = true ∧ a.cost = cost n c a.rowSol :=
+  lapEasy_certified' n c a h
+
+/-- … hence an assignment of minimal total cost among all `n!` permutations -/
+theorem lap_partial_optimal (n : Nat) (c : Nat → Nat → ℝ) (a : Easy ℝ) (h : lapEasy n c = some a)
+    (τ : Equiv.Perm (Fin n)) : a.cost ≤ ∑ i : Fin n, c i.val (τ i).val := by
+  obtain ⟨hp, hc, hcost⟩ := lap_partial n c a h
+  rw [hcost]
+  exact lap_certificate n c a.rowSol a.colSol a.u a.v hp hc τ
+
+/-- the column reduction keeps, for every column, a row holding the column's minimum (the first step
+of the routine, on every input) -/
+theorem lap_column_reduction (n : Nat) (c : Nat → Nat → ℝ) (j : Nat) (hn : 0 < n) :
+    colMinRow n c j < n ∧ ∀ i, i < n → c (colMinRow n c j) j ≤ c i j := colMinRow_spec n c j hn
+
+/-- non-vacuity of `lap_partial`: the `2 × 2` matrix `[[1,2],[3,1]]` has no free row (evaluated in `Rat`),
+the constant matrix `[[1,1],[1,1]]` has one -/
+example : (lapEasy 2 (fun i j => if i = j then (1 : Rat) else if i = 0 then 2 else 3)).isSome = true ∧
+    (lapEasy 2 (fun _ _ => (1 : Rat))).isSome = false := by decide
 
 /-- non-vacuity: the identity assignment of the `2 × 2` cost matrix `[[1,2],[3,1]]` with `u = (1,1)`,
 `v = (0,0)` is a permutation and is certified -/
